@@ -1,4 +1,4 @@
-import RulioProofs.Events
+import RulioProofs.EventsExamples
 
 /-! # C04 — an event runs each action exactly once per rule, `when` binding and condition binding
 (property theorems only)
@@ -12,7 +12,7 @@ candidates with their `when` bindings), `condEnv` (binding + `?event`/`?location
 (the condition's result on an environment), `actNodeOf b a` (the leaf of action `a` on binding `b`),
 `actsOf r out` (one leaf per result binding × action), `okValues`, `treeValues`, `actCount`. -/
 
-open QueryProofs EventsProofs
+open QSpec QueryProofs EventsProofs
 
 /-! ## 0. accumulator-free form of the walk -/
 
@@ -34,6 +34,11 @@ theorem dispatch_selects (ev : Obj) (cands : List (String × RuleM × Bool)) (di
     (h : dispatch ev cands = .ok disp) :
     disp = cands.filterMap (fun c => match dispatchOne ev c with | .ok o => o | .error _ => none) :=
   dispatch_ok ev cands disp h
+
+/-- `err = none` means the dispatch succeeded (no matcher error in any enabled candidate's `when`) -/
+theorem no_err_dispatch (srch : Srch) (loc : String) (ev : Obj) (cands : List (String × RuleM × Bool))
+    (h : (processEvent srch loc ev cands).err = none) : ∃ disp, dispatch ev cands = .ok disp :=
+  EventsProofs.no_err_dispatch srch loc ev cands h
 
 /-! ## 1. `exec_count` -/
 
@@ -91,6 +96,16 @@ theorem cond_nodes_env (srch : Srch) (loc : String) (ev : Obj) (cands : List (St
     (rn : RuleNode) (hrn : rn ∈ (processEvent srch loc ev cands).rules) :
     ∃ n, rn.conds.map (·.bs) = (rn.bss.take n).map (condEnv loc ev rn.id) :=
   tree_cond_env srch loc ev cands rn hrn
+
+/-- a rule without condition: the "result" is the environment itself, once -/
+theorem cond_absent (srch : Srch) (r : RuleM) (env : Bs) (h : r.condition = none) :
+    condResult srch r env = .ok [env] := by
+  unfold condResult; rw [h]
+
+/-- a rule with a condition `q`: parsed (dispatch order of C03) and run by `execQ` on the singleton `[env]` -/
+theorem cond_present (srch : Srch) (r : RuleM) (env : Bs) (q : J) (h : r.condition = some q) :
+    condResult srch r env = (do let q' ← parseQuery (4 * sz q + 4) q; execQ srch q' [env]) := by
+  unfold condResult; rw [h]
 
 /-- a failing condition (evaluated on exactly `[condEnv …]`): error node, no action runs, the walk aborts -/
 theorem eval_cond_error (srch : Srch) (loc : String) (ev : Obj) (id : String) (r : RuleM) (bs : Bs) (e : LErr)
@@ -211,3 +226,103 @@ theorem nodes_are_dispatched (srch : Srch) (loc : String) (ev : Obj) (cands : Li
     (rn : RuleNode) (hrn : rn ∈ (processEvent srch loc ev cands).rules) :
     ∃ r, (rn.id, r, true) ∈ cands ∧ whenBindings ev r = .ok rn.bss ∧ rn.bss ≠ [] :=
   tree_nodes_dispatched srch loc ev cands rn hrn
+
+/-! ## Non-vacuity: a concrete rule set — event `{"a":[1,2]}`; rule `r1` with the array `when` `{"a":["?x"]}` (two
+bindings `w1`, `w2`), condition `{"pattern":{"a":"?y"}}` (two bindings over the facts of `QueryEx.exSrch`),
+actions `[aEcho, aThrow]` (the second always fails); a disabled copy `r0` and a non-matching rule `r2` -/
+
+section Examples
+open EventsEx QueryEx
+
+/-- multi-binding `when`: the array pattern with a variable yields one binding per array element -/
+example : whenBindings exEv exR = .ok [w1, w2] := ex_when
+
+/-- hypothesis `hd`: the disabled copy and the non-matching rule are not dispatched -/
+example : dispatch exEv exCands = .ok [("r1", exR, [w1, w2])] := ex_dispatch
+
+/-- the condition yields two bindings on the environment of either `when` binding -/
+example : condResult exSrch exR (condEnv "loc" exEv "r1" w2) =
+    .ok [("?y", .num 1) :: condEnv "loc" exEv "r1" w2, ("?y", .num 2) :: condEnv "loc" exEv "r1" w2] :=
+  ex_cond exR rfl "r1" w2 (Or.inr rfl)
+
+/-- the environment: `?event`, `?location`, `?ruleId` added to the `when` binding -/
+example : condEnv "loc" exEv "r1" w1 =
+    [("?x", .num 1), ("?event", .obj exEv), ("?location", .str "loc"), ("?ruleId", .str "r1")] := by
+  simp [condEnv, addDefault, w1, Bs.get?]
+
+/-- hypothesis `h`: nothing aborts although one of the two actions fails every time -/
+example : (processEvent exSrch "loc" exEv exCands).aborted = false := ex_not_aborted
+
+/-- `exec_count` on the instance: 1 rule × 2 `when` bindings × 2 condition bindings × 2 actions = 8 executions -/
+example : actCount (processEvent exSrch "loc" exEv exCands) = 8 := by
+  rw [exec_count _ _ _ _ _ ex_dispatch ex_not_aborted]
+  simp only [List.map_cons, List.map_nil, List.sum_cons, List.sum_nil,
+    ex_condOut w1 (Or.inl rfl), ex_condOut w2 (Or.inr rfl)]
+  rfl
+
+/-- `tree_shape` on the instance: one rule node, two condition nodes, under each: echo, failed, echo, failed -/
+example : (processEvent exSrch "loc" exEv exCands).rules =
+    [{ id := "r1", bss := [w1, w2],
+       conds := [w1, w2].map fun w =>
+         { bs := condEnv "loc" exEv "r1" w, err := none,
+           acts := [{ ok := true, value := .obj (stripQ (("?y", .num 1) :: condEnv "loc" exEv "r1" w)) }, failedNode,
+                    { ok := true, value := .obj (stripQ (("?y", .num 2) :: condEnv "loc" exEv "r1" w)) }, failedNode] } }] := by
+  rw [(tree_shape _ _ _ _ _ ex_dispatch ex_not_aborted).2.1]
+  simp [ruleNodeSpec, condNodeSpec, ex_condOut, ex_acts exR rfl]
+
+/-- `tree_values_agree` on the instance: the four values of the completed leaves, in walk order -/
+example : (processEvent exSrch "loc" exEv exCands).values =
+    [.obj (stripQ (("?y", .num 1) :: condEnv "loc" exEv "r1" w1)), .obj (stripQ (("?y", .num 2) :: condEnv "loc" exEv "r1" w1)),
+     .obj (stripQ (("?y", .num 1) :: condEnv "loc" exEv "r1" w2)), .obj (stripQ (("?y", .num 2) :: condEnv "loc" exEv "r1" w2))] := by
+  rw [tree_values_agree, treeValues, (tree_shape _ _ _ _ _ ex_dispatch ex_not_aborted).2.1]
+  simp [ruleNodeSpec, condNodeSpec, ex_condOut, ex_acts exR rfl, okValues, failedNode]
+
+/-- what an `echo` action sees: the stripped binding (`x`, `y`, `event`, `location`, `ruleId` — no `?`) -/
+example : stripQ (("?y", .num 1) :: condEnv "loc" exEv "r1" w1) =
+    [("y", .num 1), ("x", .num 1), ("event", .obj exEv), ("location", .str "loc"), ("ruleId", .str "r1")] :=
+  ex_strip
+
+/-- `failure_isolated` applies: replace `aEcho` by the failing `aThrow` in `r1` -/
+example :
+    let r' : RuleM := { exR with actions := [aThrow, aThrow] }
+    Pointwise (NodeRel "r1" exR r') (processEvent exSrch "loc" exEv exCands).rules
+      (processEvent exSrch "loc" exEv [("r0", exR, false), ("r1", r', true), ("r2", exRz, true)]).rules :=
+  (failure_isolated exSrch "loc" exEv [("r0", exR, false)] [("r2", exRz, true)] "r1" exR
+    { exR with actions := [aThrow, aThrow] } true rfl rfl rfl rfl).2.2
+
+/-- … and `failure_isolated_leaves` with `p = []`, `a = aEcho`, `q = [aThrow]` -/
+example (out : List Bs) :
+    okValues (actsOf { exR with actions := [aThrow, aThrow] } out) =
+      out.flatMap (fun b => okValues ([].map (actNodeOf b)) ++ okValues ([aThrow].map (actNodeOf b))) :=
+  (failure_isolated_leaves exR { exR with actions := [aThrow, aThrow] } [] [aThrow] aEcho aThrow out rfl rfl
+    (fun b => ⟨_, throw_fails b⟩)).2.2.2
+
+/-- `serial_stops` on the instance: with `serialActions` the first failing action (2nd of 4 pairs) is the last leaf -/
+example : evalCond exSrch "loc" exEv "r1" exRs w1 =
+    ({ bs := condEnv "loc" exEv "r1" w1, err := none,
+       acts := [(("?y", .num 1) :: condEnv "loc" exEv "r1" w1, aEcho)].map (fun p => actNodeOf p.1 p.2) ++ [failedNode] },
+      okValues ([(("?y", .num 1) :: condEnv "loc" exEv "r1" w1, aEcho)].map (fun p => actNodeOf p.1 p.2)), true) :=
+  serial_stops exSrch "loc" exEv "r1" exRs w1 _ (ex_cond exRs rfl "r1" w1 (Or.inl rfl)) rfl
+    [(("?y", .num 1) :: condEnv "loc" exEv "r1" w1, aEcho)]
+    [(("?y", .num 2) :: condEnv "loc" exEv "r1" w1, aEcho), (("?y", .num 2) :: condEnv "loc" exEv "r1" w1, aThrow)]
+    (("?y", .num 1) :: condEnv "loc" exEv "r1" w1) aThrow "script"
+    (by rw [ex_pairs exRs rfl]; rfl)
+    (by intro p hp; rw [List.mem_singleton] at hp; subst hp; exact ⟨_, execAction_echo aEcho _ echo_isEcho⟩)
+    (throw_fails _)
+
+/-- `abort_stops_walk` on the instance: the serial rule aborts, the second `when` binding and the rule `r3`
+dispatched after it are never evaluated -/
+example : (processEvent exSrch "loc" exEv [("r1", exRs, true), ("r3", exR, true)]).rules =
+      [{ id := "r1", bss := [w1, w2], conds := [(evalCond exSrch "loc" exEv "r1" exRs w1).1] }] ∧
+    (processEvent exSrch "loc" exEv [("r1", exRs, true), ("r3", exR, true)]).aborted = true := by
+  have h := abort_stops_walk exSrch "loc" exEv _ [] [("r3", exR, [w1, w2])] ("r1", exRs, [w1, w2]) ex_dispatch_s
+    (fun _ hx => by cases hx) (by rw [ex_serial_ruleStep])
+  rw [h.1, h.2]
+  simp [ex_serial_ruleStep]
+
+/-- `disabled_not_run` / `nonmatching_not_run` on the instance -/
+example : processEvent exSrch "loc" exEv exCands = processEvent exSrch "loc" exEv [("r1", exR, true)] := by
+  exact (disabled_not_run exSrch "loc" exEv [] [("r1", exR, true), ("r2", exRz, true)] "r0" exR).trans
+    (nonmatching_not_run exSrch "loc" exEv [("r1", exR, true)] [] "r2" exRz true ex_when_z)
+
+end Examples
